@@ -295,7 +295,7 @@ func init() {
 		if c == True {
 			return nil
 		}
-		if c == False || !in.run.feasible(in.pc, c) {
+		if c == False || !in.run.feasible(in, c) {
 			in.abort("assume", "assumption not satisfiable on this path")
 		}
 		in.addPC(c)
@@ -344,21 +344,19 @@ func init() {
 
 func (in *Interp) assertion(id string, c *Term) {
 	r := in.run
-	ob := r.obligation(id)
-	ob.Instances++
 	if c == True {
-		ob.Trivial++
+		r.count(id, func(o *Obligation) { o.Instances++; o.Trivial++ })
 		return
 	}
-	res, model := r.checkObligation(in.pc, Not(c), in.nondets)
+	res, model := r.checkObligation(in, Not(c), in.nondets)
 	switch res {
 	case Unsat:
-		ob.Unsat++
+		r.count(id, func(o *Obligation) { o.Instances++; o.Unsat++ })
 	case Sat:
-		ob.Sat++
+		r.count(id, func(o *Obligation) { o.Instances++; o.Sat++ })
 		r.recordViolation(in, id, model)
 	default:
-		ob.Unknown++
+		r.count(id, func(o *Obligation) { o.Instances++; o.Unknown++ })
 		r.inconclusive(fmt.Sprintf("obligation %s: solver returned unknown", id))
 	}
 	// continue under the asserted condition
@@ -366,7 +364,7 @@ func (in *Interp) assertion(id string, c *Term) {
 		in.abort("stop", "assertion is false on this whole path")
 	}
 	if res == Sat {
-		if !r.feasible(in.pc, c) {
+		if !r.feasible(in, c) {
 			in.abort("stop", "assertion fails on the whole path")
 		}
 	}
